@@ -31,18 +31,26 @@ def one(patch, ids, tier):
     return res
 
 def main():
-    a = sys.argv[1:]; j = 4; tier = "quick"; jobs = []
+    a = sys.argv[1:]; j = 4; tier = "quick"; jobs = []; record = False
     while a:
         x = a.pop(0)
         if x == "-j": j = int(a.pop(0))
         elif x == "--tier": tier = a.pop(0)
+        elif x == "--record": record = True
         elif x == "--all":
             exp = json.load(open(os.path.join(V, "mutants", "expect.json")))
             jobs += [(os.path.join(V, "mutants", k), v) for k, v in sorted(exp.items())]
         else:
             p, ids = x.split(":"); jobs.append((p, ids.split(",")))
+    results = {}
     with cf.ThreadPoolExecutor(max_workers=j) as ex:
         for rs in ex.map(lambda t: one(t[0], t[1], tier), jobs):
             for patch, i, st in rs:
                 print("%-55s %-4s %s" % (os.path.basename(patch), i, st), flush=True)
+                results.setdefault(os.path.basename(patch), {})[i] = st.split()[0]
+    if record:
+        rp = os.path.join(V, "mutants", "results.json")
+        old = json.load(open(rp)) if os.path.exists(rp) else {}
+        old.update(results)
+        json.dump(old, open(rp, "w"), indent=1, sort_keys=True)
 main()
